@@ -1,11 +1,17 @@
 ------------------------------ MODULE Gen_Pfc ------------------------------
-(* Transmissions for the PFC driver: for every block list and fault the items as transmitted
-   and the blocks the specification delivers after each item. *)
+(* Transmissions for the PFC driver: for every block list and fault the items as transmitted and, for each receiver
+   policy the statement admits, the blocks the specification delivers after each item (alts; the policies differ
+   for err2 faults only).  The generator configurations run with Policies = {"strict"}: pol is the first policy. *)
 EXTENDS Pfc, Json
 VARIABLE hist
 gvars == <<vars, hist>>
 GInit == Init /\ hist = <<>>
-GNext == Next /\ hist' = Append(hist, SubSeq(out', Len(out) + 1, Len(out')))
-GSpec == GInit /\ [][GNext]_gvars
-Dump == Done => PrintT(<<"TR", ToJson([items |-> items, fault |-> fault, fgn |-> fgn, outs |-> hist])>>)
+\* all items at once (Pfc!Leap)
+GLeap == /\ pos <= Len(items)
+         /\ LET res == RunAll(rx, pos, out, <<>>, pol)
+            IN /\ rx' = res.rx /\ out' = res.out
+               /\ hist' = IF fault.k = "err2" THEN <<res.hist, RunAll(rx, pos, out, <<>>, "lenient").hist>> ELSE <<res.hist>>
+         /\ pos' = Len(items) + 1 /\ UNCHANGED <<blocks, fault, fgn, pol, items, aux>>
+GLeapSpec == GInit /\ [][GLeap]_gvars
+Dump == Done => PrintT(<<"TR", ToJson([items |-> items, fault |-> fault, fgn |-> fgn, alts |-> hist])>>)
 =============================================================================
